@@ -154,13 +154,15 @@ Qed.
 Lemma filter_bits_in : forall z, Forall (fun x => In x mask_bits) (filter (bit_set z) mask_bits).
 Proof. intro z. rewrite Forall_forall. intros x Hx. apply filter_In in Hx. tauto. Qed.
 
+Lemma filter_mem_filter : forall (f : Z -> bool) (m : list Z), filter (fun b => mem_z b (filter f m)) m = filter f m.
+Proof.
+  intros f m. apply filter_ext_in'. intros b Hb. destruct (f b) eqn:B.
+  - apply existsb_exists. exists b. split; [apply filter_In; split; assumption|apply Z.eqb_refl].
+  - destruct (mem_z b (filter f m)) eqn:M; [|reflexivity].
+    apply existsb_exists in M. destruct M as [x [Hx E]]. apply Z.eqb_eq in E. subst x. apply filter_In in Hx. destruct Hx. congruence.
+Qed.
+
 Lemma mask_in_out_filter : forall z, sql_mask_in (sql_mask_out (filter (bit_set z) mask_bits)) = filter (bit_set z) mask_bits.
 Proof.
-  intro z. rewrite sql_mask_roundtrip_l by apply filter_bits_in. unfold canon_mask.
-  rewrite <- (filter_ext_in' Z (fun b => bit_set z b && true) (fun b => mem_z b (filter (bit_set z) mask_bits))).
-  - apply filter_ext_in'. intros. apply andb_true_r.
-  - intros b Hb. rewrite andb_true_r. destruct (bit_set z b) eqn:B.
-    + symmetry. apply existsb_exists. exists b. split; [apply filter_In; split; assumption|apply Z.eqb_refl].
-    + symmetry. destruct (mem_z b (filter (bit_set z) mask_bits)) eqn:M; [|reflexivity].
-      apply existsb_exists in M. destruct M as [x [Hx E]]. apply Z.eqb_eq in E. subst x. apply filter_In in Hx. destruct Hx. congruence.
+  intro z. rewrite sql_mask_roundtrip_l by apply filter_bits_in. unfold canon_mask. generalize mask_bits. intro m. apply filter_mem_filter.
 Qed.
